@@ -833,13 +833,19 @@ private:
     }
 
     void lock() noexcept {
+      LIBCUCKOO_VERIF_HOOK(LIBCUCKOO_VH_LOCKREQ, this, 0, 0);
       while (lock_.test_and_set(std::memory_order_acq_rel))
         ;
+      LIBCUCKOO_VERIF_HOOK(LIBCUCKOO_VH_LOCKED, this, 0, 0);
     }
 
-    void unlock() noexcept { lock_.clear(std::memory_order_release); }
+    void unlock() noexcept {
+      LIBCUCKOO_VERIF_HOOK(LIBCUCKOO_VH_UNLOCK, this, 0, 0);
+      lock_.clear(std::memory_order_release);
+    }
 
     bool try_lock() noexcept {
+      LIBCUCKOO_VERIF_HOOK(LIBCUCKOO_VH_TRYLOCK, this, 0, 0);
       return !lock_.test_and_set(std::memory_order_acq_rel);
     }
 
@@ -908,6 +914,7 @@ private:
         for (spinlock &lock : locks) {
           lock.unlock();
         }
+        LIBCUCKOO_VERIF_HOOK(LIBCUCKOO_VH_ALL_UNLOCK_END, map, 0, 0);
       }
     }
 
@@ -929,6 +936,7 @@ private:
   };
 
   ResizeCounter load_resize_counter() const {
+    LIBCUCKOO_VERIF_HOOK(LIBCUCKOO_VH_LD_RC, this, 0, 0);
     return ResizeCounter{resize_counter_.load(std::memory_order_acquire)};
   }
 
@@ -1111,6 +1119,7 @@ private:
     // all_locks_ should never decrease in size, so if it is non-empty now, it
     // will remain non-empty
     assert(!all_locks_.empty());
+    LIBCUCKOO_VERIF_HOOK(LIBCUCKOO_VH_ALL_FIRST, this, 0, 0);
     const auto first_locked = std::prev(all_locks_.end());
     auto current_locks = first_locked;
     while (current_locks != all_locks_.end()) {
@@ -1118,6 +1127,7 @@ private:
       for (spinlock &lock : locks) {
         lock.lock();
       }
+      LIBCUCKOO_VERIF_HOOK(LIBCUCKOO_VH_ALL_NEXT, this, 0, 0);
       ++current_locks;
     }
     // Once we have taken all the locks of the "current" container, nobody
@@ -1779,6 +1789,7 @@ private:
     }
 
     // Bump the resize_counter_ to indicate that we've resized the table.
+    LIBCUCKOO_VERIF_HOOK(LIBCUCKOO_VH_FA_RC, this, 0, 0);
     resize_counter_.fetch_add(1, std::memory_order_release);
 
     return ok;
@@ -1878,6 +1889,8 @@ private:
     for (spinlock &lock : new_locks) {
       lock.lock();
     }
+    LIBCUCKOO_VERIF_HOOK(LIBCUCKOO_VH_EMPLACE, this, new_locks.size(),
+                         reinterpret_cast<unsigned long>(new_locks.data()));
     all_locks_.emplace_back(std::move(new_locks));
   }
 
@@ -1941,6 +1954,7 @@ private:
     buckets_.swap(new_map.buckets_);
 
     // Bump the resize_counter_ to indicate that we've resized the table.
+    LIBCUCKOO_VERIF_HOOK(LIBCUCKOO_VH_FA_RC, this, 0, 0);
     resize_counter_.fetch_add(1, std::memory_order_release);
 
     return ok;
@@ -2077,7 +2091,10 @@ private:
   static constexpr size_type kMaxNumLocks = 1UL << 16;
 #endif
 
-  locks_t &get_current_locks() const { return all_locks_.back(); }
+  locks_t &get_current_locks() const {
+    LIBCUCKOO_VERIF_HOOK(LIBCUCKOO_VH_CURLOCKS, this, 0, 0);
+    return all_locks_.back();
+  }
 
   // Get/set/decrement num remaining lazy rehash locks. If we reach 0 remaining
   // lazy locks, we can deallocate the memory in old_buckets_.
@@ -2086,6 +2103,7 @@ private:
   }
 
   void num_remaining_lazy_rehash_locks(size_type n) const {
+    LIBCUCKOO_VERIF_HOOK(LIBCUCKOO_VH_ST_NREM, this, n, 0);
     num_remaining_lazy_rehash_locks_.store(n, std::memory_order_release);
     if (n == 0) {
       old_buckets_.clear_and_deallocate();
@@ -2093,6 +2111,7 @@ private:
   }
 
   void decrement_num_remaining_lazy_rehash_locks() const {
+    LIBCUCKOO_VERIF_HOOK(LIBCUCKOO_VH_FS_NREM, this, 0, 0);
     size_type old_num_remaining = num_remaining_lazy_rehash_locks_.fetch_sub(
         1, std::memory_order_acq_rel);
     assert(old_num_remaining >= 1);
